@@ -60,8 +60,9 @@ def gen_case(rng, quick=True):
             "tau_form": rng.choice(["float", "float", "np.float64", "0d", "0d", "1el"])}
     kvpool = [5000, 10000, 20000, 40000] if kind == "int" else [1, 1, 2, 4]   # float shifts count multiples of kvalue too (on the grid)
     case["kvalue"] = float(rng.choice(kvpool))
-    if kdim > 1 and rng.random() < 0.3:
-        case["kvalue"] = [float(rng.choice(kvpool)) for _ in range(kdim)]      # one kvalue per axis (ndarray)
+    if rng.random() < 0.3:
+        # one kvalue per axis (ndarray), in every mode, possibly for more axes than the wavenumbers use (kvalue[:kdim])
+        case["kvalue"] = [float(rng.choice(kvpool)) for _ in range(rng.choice([max(kdim, 2), 3]))]
     if kind == "float":
         case["kgrid"] = KGRID
     dirs = []
@@ -76,11 +77,6 @@ def gen_case(rng, quick=True):
     gD = [{"tau": rng.choice(taus), "D": rng.choice(Dpool)} for _ in dirs]       # the diffusion operator of each direction
     free = {"op": "D", "tau": float(F(rng.randint(8, 400), 8)), "D": rng.choice(Dpool), "k": None}
 
-    Dtens = None
-    while not isinstance(Dtens, list):
-        Dtens = gen_D(rng, kdim)
-    vector_kvalue = isinstance(case["kvalue"], list)
-
     def build(dd):
         r = rng_struct                                  # the structure is drawn once and replayed for ops2
         ops = []
@@ -91,10 +87,6 @@ def gen_case(rng, quick=True):
             elif item[0] == "G":
                 i = item[1]
                 Dg = gD[i]["D"]
-                if vector_kvalue and isinstance(dd[i], int) and not nd and isinstance(Dg, float):
-                    # scalar k, scalar D, vector kvalue on still 1-D coordinates: D._apply multiplies the scalar k by the
-                    # whole kvalue vector and raises (recorded by probe_vector_kvalue_1d); a tensor upgrades the coordinates
-                    Dg = Dtens
                 ops += [{"op": "S", "k": dd[i]}, {"op": "D", "tau": gD[i]["tau"], "D": Dg, "k": dd[i]}]
                 nd = nd or not isinstance(dd[i], int) or isinstance(Dg, list)
             else:
@@ -223,7 +215,7 @@ def kvalue_arg(case):
 def kvv(case):
     """kvalue per wavenumber axis"""
     kdim = MODES[case["mode"]][1]
-    return list(case["kvalue"]) if isinstance(case["kvalue"], list) else [case["kvalue"]] * kdim
+    return list(case["kvalue"])[:kdim] if isinstance(case["kvalue"], list) else [case["kvalue"]] * kdim
 
 
 def kvec(case, k):
@@ -317,19 +309,17 @@ Definition tols : Qc := Q2Qc (1 # 1000000000).
 
 def corr_term(case, d):
     ns = d["pre"].shape[0]
-    kd_act = 1 if d["coords"] is None else d["coords"].shape[1]      # wavenumber dimension of the state matrix at this point
-    kvs = qlist(kvv(case)[:kd_act])                                  # kvalue[:kdim]
-    if d["coords"] is None:
-        ks = "(ks_ofv %s (coords1 %d))" % (kvs, ns)
-    else:
-        ks = "(ks_ofv %s %s)" % (kvs, qmat(d["coords"].tolist()))
+    # the whole kvalue (scalar: repeated) goes to the model, which slices it to the wavenumber dimension of the state matrix
+    kvs = qlist(list(case["kvalue"]) if isinstance(case["kvalue"], list) else [case["kvalue"]] * 3)
+    co = "(coords1 %d)" % ns if d["coords"] is None else qmat(d["coords"].tolist())
+    ks = "(ks_ofv %s %s)" % (kvs, co)
     if d["k"] is None:
         shift = "None"
     elif isinstance(d["k"], int):
-        # scalar self.k: shift = self.k * kvalue along the first axis only, evaluated by the model in exact rationals
-        shift = "(Some (shift_scalar %s %s))" % (q(float(d["k"])), kvs)
+        # scalar self.k: shift = self.k * kvalue[:kdim] along the first axis only, evaluated by the model in exact rationals
+        shift = "(Some (shift_scalar_on %s %s %s))" % (q(float(d["k"])), kvs, co)
     else:
-        shift = "(Some (shift_vector %s %s))" % (qlist([float(x) for x in d["k"]]), kvs)
+        shift = "(Some (shift_vector_on %s %s %s))" % (qlist([float(x) for x in d["k"]]), kvs, co)
     obsL = core.clist([qmat(m) for m in d["bL"].tolist()])
     obsT = core.clist([qmat(m) for m in d["bT"].tolist()])
     DT = core.clist([core.qi(complex(x)) for x in d["DT"]])
@@ -699,8 +689,7 @@ def run(ctx):
         "the n-D / gridded shift back-ends are NOT modelled here (C04): the correspondence takes the coordinates they produce as input",
         "Coquelicot + Interval libraries; axioms as printed by Print Assumptions (classical reals, functional extensionality, classic)"]
     ctx.notes["tensor_D_before_first_shift"] = probe_fresh_tensor()
-    ctx.notes["scalar_k_on_nd_coordinates"] = witness_scalar_k_nd(ctx)
-    ctx.notes["vector_kvalue_with_1d_scalar_gradient"] = probe_vector_kvalue_1d()
+    ctx.notes["regression_witnesses"] = run_witnesses(ctx)
     if not proved and not ctx.violations:
         ctx.report("proof obligations of C05 no longer check: %s" % ctx.failed_obligations,
                    {"theorem_or_correspondence": ctx.failed_obligations}, found_input=False)
@@ -721,49 +710,47 @@ def probe_fresh_tensor():
         return "raises %s: %s" % (type(e).__name__, e)
 
 
-def witness_scalar_k_nd(ctx):
-    """regression witnesses (fixed finding, /repo 24c5294): S(1), D(tau, D, k=1) on a state matrix with 3-D
-    coordinates.  S puts a scalar shift on the first axis; D._apply must integrate the ramp k - (s, 0, 0) -> k, not
-    k - (s, s, s) -> k.  Spin-echo amplitude against exp(-2 tau k^2 Dxx / 3); a mismatch is a violation with this input."""
+def run_witnesses(ctx):
+    """checked regression witnesses of fixed findings: spin echoes whose amplitude must be exp(-2 tau |k|^2 D / 3)
+    (two ramps 0 -> k and k -> 0); a mismatch or an exception is a violation with this input.
+    scalar_k_on_nd_coordinates (/repo 24c5294): a scalar k acts along the first axis of 3-D coordinates;
+    per_axis_kvalue (/repo f25d8fb): a per-axis kvalue is sliced to the wavenumber dimension of the state matrix."""
     import epgpy as epg
-    kv, tau = 4e4, 10.0
-    Dt = np.diag([1e-3, 2e-3, 3e-3])
-    wit = {"scalar D after a tensor interval": "[T(90,0), D(1.0, diag(1e-3,1e-3,1e-3)), S(1), D(10.0, 1e-3, 1), T(180,0), S(1), D(10.0, 1e-3, 1), ADC]",
-           "tensor D": "[T(90,0), S(1), D(10.0, diag(1e-3,2e-3,3e-3), 1), T(180,0), S(1), D(10.0, diag(1e-3,2e-3,3e-3), 1), ADC]"}
-    seqs = {"scalar D after a tensor interval": [epg.T(90, 0), epg.D(1.0, np.diag([1e-3, 1e-3, 1e-3])), epg.S(1), epg.D(tau, 1e-3, 1), epg.T(180, 0), epg.S(1), epg.D(tau, 1e-3, 1), epg.ADC],
-            "tensor D": [epg.T(90, 0), epg.S(1), epg.D(tau, Dt, 1), epg.T(180, 0), epg.S(1), epg.D(tau, Dt, 1), epg.ADC]}
-    exp = float(np.exp(-2 * tau * 1e-3 * (kv * 1e-3) ** 2 * 1e-3 / 3))
+    tau, T, S, D = 10.0, epg.T, epg.S, epg.D
+    Dt, I3 = np.diag([1e-3, 2e-3, 3e-3]), np.diag([1e-3, 1e-3, 1e-3])
+    kv3 = np.array([1e4, 2e4, 4e4])
+    a11 = np.array([1, 1])
+    wits = [
+        ("scalar_k_on_nd_coordinates", "scalar D after a tensor interval", "[T(90,0), D(1.0, diag(1e-3,1e-3,1e-3)), S(1), D(10.0, 1e-3, 1), T(180,0), S(1), D(10.0, 1e-3, 1), ADC], kvalue=4e4",
+         lambda: [T(90, 0), D(1.0, I3), S(1), D(tau, 1e-3, 1), T(180, 0), S(1), D(tau, 1e-3, 1)], 4e4, 40.0 ** 2),
+        ("scalar_k_on_nd_coordinates", "tensor D", "[T(90,0), S(1), D(10.0, diag(1e-3,2e-3,3e-3), 1), T(180,0), S(1), D(10.0, diag(1e-3,2e-3,3e-3), 1), ADC], kvalue=4e4",
+         lambda: [T(90, 0), S(1), D(tau, Dt, 1), T(180, 0), S(1), D(tau, Dt, 1)], 4e4, 40.0 ** 2),
+        ("per_axis_kvalue", "1-D scalar shift, scalar D, scalar k", "[T(90,0), S(2), D(10.0, 1e-3, 2), T(180,0), S(2), D(10.0, 1e-3, 2), ADC], kvalue=array([1e4,2e4,4e4])",
+         lambda: [T(90, 0), S(2), D(tau, 1e-3, 2), T(180, 0), S(2), D(tau, 1e-3, 2)], kv3, 20.0 ** 2),
+        ("per_axis_kvalue", "2-D vector k", "[T(90,0), S([1,1]), D(10.0, 1e-3, [1,1]), T(180,0), S([1,1]), D(10.0, 1e-3, [1,1]), ADC], kvalue=array([1e4,2e4,4e4])",
+         lambda: [T(90, 0), S(a11), D(tau, 1e-3, a11), T(180, 0), S(a11), D(tau, 1e-3, a11)], kv3, 10.0 ** 2 + 20.0 ** 2),
+    ]
     out = {}
-    for name, seq in seqs.items():
+    for group, name, text, build, kv, k2 in wits:
+        exp = float(np.exp(-2 * tau * 1e-3 * k2 * 1e-3 / 3))        # |k|^2 in (rad/mm)^2, D = 1e-3 mm^2/s along k
         try:
-            got = abs(complex(np.ravel(epg.simulate(seq, kvalue=kv))[0]))
+            got = abs(complex(np.ravel(epg.simulate(build() + [epg.ADC], kvalue=kv))[0]))
             ok, desc = abs(got - exp) < 1e-9, "|F0| = %.10f" % got
         except Exception as e:
             ok, desc = False, "raises %s: %s" % (type(e).__name__, e)
-        out[name] = {"simulate": desc, "pathway_integral": exp, "agree": bool(ok)}
+        out.setdefault(group, {})[name] = {"simulate": desc, "pathway_integral": exp, "agree": bool(ok)}
         if not ok:
-            ctx.report("scalar gradient k on n-D coordinates (%s): simulate(%s, kvalue=4e4) gives %s, the pathway integral exp(-2 tau k^2 Dxx/3) is %.10f"
-                       % (name, wit[name], desc, exp), {"witness": name, "sequence": wit[name], "kvalue": kv, "expected": exp, "got": desc},
-                       found_input=True, signature={"witness": "scalar_k_on_nd_coordinates"})
+            ctx.report("%s (%s): simulate(%s) gives %s, the pathway integral exp(-2 tau |k|^2 D/3) is %.10f" % (group, name, text, desc, exp),
+                       {"witness": name, "group": group, "sequence": text, "expected": exp, "got": desc},
+                       found_input=True, signature={"witness": group})
     return out
-
-
-def probe_vector_kvalue_1d():
-    """record (reported to the lead, not judged): kvalue given per axis but only 1-D scalar shifts used, scalar D with a
-    scalar k: D._apply multiplies the scalar k by the whole kvalue vector while sm.k uses kvalue[:1]"""
-    import epgpy as epg
-    try:
-        epg.simulate([epg.T(90, 0), epg.S(2), epg.D(10.0, 1e-3, 2), epg.ADC], kvalue=np.array([1e4, 2e4, 4e4]))
-        return "accepted"
-    except Exception as e:
-        return "raises %s: %s" % (type(e).__name__, e)
 
 
 def replay(ctx, rp):
     if "witness" in rp:
-        out = witness_scalar_k_nd(ctx)
-        bad = [k for k, v in out.items() if not v["agree"]]
-        print("replay:", ("witnesses failing: %s %s" % (bad, [out[k]["simulate"] for k in bad])) if bad else "witnesses agree with the pathway integral")
+        out = run_witnesses(ctx)
+        bad = ["%s/%s: %s" % (g, k, v["simulate"]) for g, d in out.items() for k, v in d.items() if not v["agree"]]
+        print("replay:", ("witnesses failing: %s" % bad) if bad else "witnesses agree with the pathway integral")
         return 1 if bad else 0
     if "case" in rp:
         case = rp["case"]
